@@ -103,7 +103,7 @@ Lemma add_entry_table raw fc sp sdi : raw <> [] -> forallb nz (sdis raw) = true 
 Proof.
   intros Hne Hnz Hs.
   unfold stsc_of_table. rewrite entries32_from_snoc, sdis_snoc. cbn [snd].
-  unfold stsc_add_entry. cbn [sc_entries sc_single sc_ids].
+  unfold stsc_add_entry. destruct (sdi =? 0) eqn:Esdi0; [lia|]. cbn [sc_entries sc_single sc_ids].
   destruct (last_opt_Some (entries32_from None raw) (entries32_nonempty raw None Hne)) as [p Hp].
   rewrite rev_last_opt, Hp. unfold lastp. rewrite Hp. unfold acc32.
   assert (Hne2 : sdis raw <> []) by (unfold sdis; destruct raw; [congruence|discriminate]).
@@ -117,19 +117,22 @@ Proof.
 Qed.
 
 (* AddEntry on a box without entries (whatever its single id) *)
-Lemma add_entry_first b fc sp sdi : sc_entries b = [] -> sc_ids b = [] ->
+Lemma add_entry_first b fc sp sdi : sc_entries b = [] -> sc_ids b = [] -> sdi <> 0 ->
   stsc_add_entry b fc sp sdi = if fc =? 1 then Ok (stsc_of_table [(fc, sp, sdi)]) else Err.
 Proof.
-  intros He Hi. unfold stsc_add_entry. rewrite He, Hi. cbn [rev].
+  intros He Hi Hs. unfold stsc_add_entry. destruct (sdi =? 0) eqn:Esdi0; [lia|]. rewrite He, Hi. cbn [rev].
   destruct (fc =? 1) eqn:E; cbn [negb]; [|reflexivity].
   unfold stsc_of_table, sdis, ids_repr. cbn. reflexivity.
 Qed.
 
 (* SetSingleSampleDescriptionID on the box of a non-empty table *)
-Lemma set_single_table raw x : raw <> [] ->
+Lemma add_entry_zero b fc sp : stsc_add_entry b fc sp 0 = Err.
+Proof. reflexivity. Qed.
+
+Lemma set_single_table raw x : raw <> [] -> x <> 0 ->
   stsc_set_single (stsc_of_table raw) x = stsc_of_table (map (fun r : N * N * N => (fst r, x)) raw).
 Proof.
-  intros Hne. unfold stsc_set_single, stsc_of_table. cbn [sc_entries].
+  intros Hne Hx. unfold stsc_set_single. destruct (x =? 0) eqn:Ex0; [lia|]. unfold stsc_of_table. cbn [sc_entries].
   rewrite entries32_map_ids, sdis_map_ids.
   destruct raw as [|r t]; [congruence|]. cbn [length repeat]. unfold ids_repr.
   rewrite forallb_eq_repeat_true. reflexivity.
@@ -140,34 +143,38 @@ Definition binv (b : stsc_box) (raw : list (N * N * N)) : Prop :=
   forallb nz (sdis raw) = true /\
   ((raw = [] /\ sc_entries b = [] /\ sc_ids b = []) \/ (raw <> [] /\ b = stsc_of_table raw)).
 
-Lemma binv_step b raw c : stsc_call_ok c = true -> binv b raw -> binv (stsc_step b c) (stsc_table_step raw c).
+Lemma binv_step b raw c : binv b raw -> binv (stsc_step b c) (stsc_table_step raw c).
 Proof.
-  intros Hc [Hnz [[-> [He Hi]] | [Hne ->]]].
+  intros [Hnz [[-> [He Hi]] | [Hne ->]]].
   - destruct c as [fc sp sdi | x]; unfold stsc_step, stsc_call_res, stsc_table_step.
-    + rewrite (add_entry_first b fc sp sdi He Hi). destruct (fc =? 1).
-      * split; [cbn in *; rewrite Hc; reflexivity|]. right. split; [discriminate|reflexivity].
-      * split; [reflexivity|]. left. auto.
-    + split; [reflexivity|]. left. cbn [map stsc_set_single sc_entries sc_ids]. auto.
+    + destruct (sdi =? 0) eqn:E0.
+      * apply N.eqb_eq in E0. subst sdi. rewrite add_entry_zero. split; [reflexivity|]. left. auto.
+      * rewrite (add_entry_first b fc sp sdi He Hi) by lia. destruct (fc =? 1).
+        -- split; [cbn; unfold nz; rewrite E0; reflexivity|]. right. split; [discriminate|reflexivity].
+        -- split; [reflexivity|]. left. auto.
+    + split; [destruct (x =? 0); reflexivity|]. left. unfold stsc_set_single.
+      destruct (x =? 0); cbn [map sc_entries sc_ids]; auto.
   - destruct c as [fc sp sdi | x]; unfold stsc_step, stsc_call_res, stsc_table_step.
-    + cbn [stsc_call_ok] in Hc. unfold nz in Hc.
-      rewrite (add_entry_table raw fc sp sdi Hne Hnz) by lia.
-      replace (match raw with [] => if fc =? 1 then [(fc, sp, sdi)] else [] | _ :: _ => raw ++ [(fc, sp, sdi)] end)
-        with (raw ++ [(fc, sp, sdi)]) by (destruct raw; [congruence|reflexivity]).
-      split.
-      * rewrite sdis_snoc, forallb_app, Hnz. cbn [snd forallb]. unfold nz. rewrite Hc. reflexivity.
-      * right. split; [destruct raw; discriminate|reflexivity].
-    + rewrite set_single_table by exact Hne. split.
-      * rewrite sdis_map_ids. cbn [stsc_call_ok] in Hc. clear -Hc. induction (length raw); [reflexivity|].
-        cbn [repeat forallb]. rewrite Hc, IHn. reflexivity.
-      * right. split; [destruct raw; [congruence|discriminate]|reflexivity].
+    + destruct (sdi =? 0) eqn:E0.
+      * apply N.eqb_eq in E0. subst sdi. rewrite add_entry_zero. split; [exact Hnz|]. right. split; [exact Hne|reflexivity].
+      * rewrite (add_entry_table raw fc sp sdi Hne Hnz) by lia.
+        replace (match raw with [] => if fc =? 1 then [(fc, sp, sdi)] else [] | _ :: _ => raw ++ [(fc, sp, sdi)] end)
+          with (raw ++ [(fc, sp, sdi)]) by (destruct raw; [congruence|reflexivity]).
+        split.
+        -- rewrite sdis_snoc, forallb_app, Hnz. cbn [snd forallb]. unfold nz. rewrite E0. reflexivity.
+        -- right. split; [destruct raw; discriminate|reflexivity].
+    + destruct (x =? 0) eqn:E0.
+      * unfold stsc_set_single. rewrite E0. split; [exact Hnz|]. right. split; [exact Hne|reflexivity].
+      * rewrite set_single_table by (try exact Hne; lia). split.
+        -- rewrite sdis_map_ids. clear -E0. induction (length raw) as [|n IHn]; [reflexivity|].
+           cbn [repeat forallb]. unfold nz at 1. rewrite E0, IHn. reflexivity.
+        -- right. split; [destruct raw; [congruence|discriminate]|reflexivity].
 Qed.
 
-Lemma binv_run calls : forall b raw, forallb stsc_call_ok calls = true -> binv b raw ->
-  binv (stsc_run b calls) (stsc_table raw calls).
+Lemma binv_run calls : forall b raw, binv b raw -> binv (stsc_run b calls) (stsc_table raw calls).
 Proof.
-  induction calls as [|c t IH]; intros b raw Hc Hb; [exact Hb|].
-  cbn [forallb] in Hc. apply andb_prop in Hc. destruct Hc as [H1 H2].
-  unfold stsc_run, stsc_table in *. cbn [fold_left]. apply IH; [exact H2|]. apply binv_step; assumption.
+  induction calls as [|c t IH]; intros b raw Hb; [exact Hb|].
+  unfold stsc_run, stsc_table in *. cbn [fold_left]. apply IH. apply binv_step; assumption.
 Qed.
 
 Lemma binv_table raw : forallb nz (sdis raw) = true -> binv (stsc_of_table raw) raw.
@@ -177,12 +184,12 @@ Proof.
   - right. split; [discriminate|reflexivity].
 Qed.
 
-Lemma run_table raw0 calls : forallb nz (sdis raw0) = true -> forallb stsc_call_ok calls = true ->
+Lemma run_table raw0 calls : forallb nz (sdis raw0) = true ->
   stsc_table raw0 calls <> [] ->
   stsc_run (stsc_of_table raw0) calls = stsc_of_table (stsc_table raw0 calls) /\
   forallb nz (sdis (stsc_table raw0 calls)) = true.
 Proof.
-  intros H0 Hc Hne. destruct (binv_run calls _ _ Hc (binv_table raw0 H0)) as [Hnz [[E _] | [_ E]]]; [congruence|].
+  intros H0 Hne. destruct (binv_run calls _ _ (binv_table raw0 H0)) as [Hnz [[E _] | [_ E]]]; [congruence|].
   split; assumption.
 Qed.
 
@@ -291,15 +298,43 @@ Qed.
 Lemma stsc_of_table_nil : stsc_of_table [] = stsc_empty.
 Proof. reflexivity. Qed.
 
-Lemma builder_stsc : forall raw0 calls,
-  forallb nz (sdis raw0) = true -> forallb stsc_call_ok calls = true ->
-  stsc_table raw0 calls <> [] ->
-  stsc_decode raw0 = Ok (stsc_of_table raw0) /\
-  stsc_run (stsc_of_table raw0) calls = stsc_of_table (stsc_table raw0 calls) /\
+(* DecodeStscSR succeeds only on 1-based ids *)
+Lemma decode_step_ok_nz n st i r st' : stsc_decode_step n st i r = Ok st' -> nz (snd r) = true.
+Proof.
+  destruct st as [[[es acc] single] ids]. destruct r as [[fc sp] sdi].
+  unfold stsc_decode_step. cbv beta iota. cbn [snd]. unfold nz.
+  destruct (sdi =? 0); [intros H; cbn in H; discriminate|intros _; reflexivity].
+Qed.
+
+Lemma decode_loop_ok_nz raw : forall n st i st', stsc_decode_loop n st i raw = Ok st' -> forallb nz (sdis raw) = true.
+Proof.
+  induction raw as [|r t IH]; intros n st i st' H; [reflexivity|].
+  cbn [stsc_decode_loop] in H. destruct (stsc_decode_step n st i r) as [st1| | |] eqn:E; cbn [rbind] in H; try discriminate.
+  change (sdis (r :: t)) with (snd r :: sdis t). cbn [forallb].
+  rewrite (decode_step_ok_nz _ _ _ _ _ E), (IH _ _ _ _ H). reflexivity.
+Qed.
+
+Lemma decode_ok_nz raw b : stsc_decode raw = Ok b -> forallb nz (sdis raw) = true.
+Proof.
+  unfold stsc_decode. intros H.
+  destruct (stsc_decode_loop (lenN raw) ([], 1, 0, []) 0 raw) as [st| | |] eqn:E; cbn [rbind] in H; try discriminate.
+  exact (decode_loop_ok_nz _ _ _ _ _ E).
+Qed.
+
+Lemma decode_ok_table raw b : stsc_decode raw = Ok b -> b = stsc_of_table raw.
+Proof.
+  intros H. pose proof (decode_table raw (decode_ok_nz raw b H)) as H2. congruence.
+Qed.
+
+Lemma builder_stsc : forall raw0 b0 calls,
+  stsc_decode raw0 = Ok b0 -> stsc_table raw0 calls <> [] ->
+  b0 = stsc_of_table raw0 /\
+  stsc_run b0 calls = stsc_of_table (stsc_table raw0 calls) /\
   stsc_decode (stsc_table raw0 calls) = Ok (stsc_of_table (stsc_table raw0 calls)).
 Proof.
-  intros raw0 calls H0 Hc Hne. destruct (run_table raw0 calls H0 Hc Hne) as [Hr Hnz].
-  split; [apply decode_table, H0|]. split; [exact Hr|apply decode_table, Hnz].
+  intros raw0 b0 calls H0 Hne. pose proof (decode_ok_table raw0 b0 H0) as ->.
+  destruct (run_table raw0 calls (decode_ok_nz _ _ H0) Hne) as [Hr Hnz].
+  split; [reflexivity|]. split; [exact Hr|apply decode_table, Hnz].
 Qed.
 
 (* ---------- the FirstSampleNr cache without wrap-around: the naive recurrence, and its sum form ---------- *)
@@ -401,37 +436,37 @@ Proof.
     symmetry. apply N.eqb_eq. unfold lenN. rewrite length_entries32. unfold sdis. cbn [length]. rewrite map_length. reflexivity.
 Qed.
 
-Lemma builder_stsc_ok : forall tb raw0 calls,
-  forallb nz (sdis raw0) = true -> forallb stsc_call_ok calls = true ->
-  t_stsc tb = stsc_run (stsc_of_table raw0) calls ->
+Lemma builder_stsc_ok : forall tb raw0 b0 calls,
+  stsc_decode raw0 = Ok b0 ->
+  t_stsc tb = stsc_run b0 calls ->
   raw_ok (stsc_table raw0 calls) = true -> rows_ok (stsc_table raw0 calls) (nchunks tb) = true ->
   match stsc_table raw0 calls with (fc, _, _) :: _ => fc = 1 | [] => False end ->
   sumN (chunk_counts (S_entries (stsc_table raw0 calls)) (nchunks tb)) = nsamples tb ->
   stsc_ok tb = true.
 Proof.
-  intros tb raw0 calls H0 Hc Hb Hraw Hrows H1 Hsum.
+  intros tb raw0 b0 calls H0 Hb Hraw Hrows H1 Hsum.
   assert (Hne : stsc_table raw0 calls <> []) by (destruct (stsc_table raw0 calls); [contradiction|discriminate]).
-  destruct (run_table raw0 calls H0 Hc Hne) as [Hr _]. rewrite Hr in Hb.
+  destruct (builder_stsc raw0 b0 calls H0 Hne) as [_ [Hr _]]. rewrite Hr in Hb.
   apply (table_stsc_ok tb _ Hb Hraw Hrows H1 Hsum).
 Qed.
 
 (* ---------- table boxes built by ANY histories make a consistent table set: every query theorem applies ---------- *)
-Lemma builder_consistent : forall tb craw0 ccalls sraw0 scalls,
+Lemma builder_consistent : forall tb craw0 ccalls sraw0 sb0 scalls,
   is_u32 (nsamples tb + 1) = true -> stts_ok tb = true -> stsz_ok tb = true -> offsets_ok tb = true ->
   stss_ok tb = true -> sdtp_ok tb = true ->
   (t_ctts tb = None \/
    (t_ctts tb = Some (ctts_run (ctts_decode craw0) ccalls) /\
     sumN (map fst (craw0 ++ ctts_table ccalls)) = nsamples tb)) ->
-  forallb nz (sdis sraw0) = true -> forallb stsc_call_ok scalls = true ->
-  t_stsc tb = stsc_run (stsc_of_table sraw0) scalls ->
+  stsc_decode sraw0 = Ok sb0 ->
+  t_stsc tb = stsc_run sb0 scalls ->
   raw_ok (stsc_table sraw0 scalls) = true -> rows_ok (stsc_table sraw0 scalls) (nchunks tb) = true ->
   match stsc_table sraw0 scalls with (fc, _, _) :: _ => fc = 1 | [] => False end ->
   sumN (chunk_counts (S_entries (stsc_table sraw0 scalls)) (nchunks tb)) = nsamples tb ->
   consistent tb = true.
 Proof.
-  intros tb craw0 ccalls sraw0 scalls Hu Htt Hsz Hof Hss Hsd Hct H0 Hc Hb Hraw Hrows H1 Hsum.
+  intros tb craw0 ccalls sraw0 sb0 scalls Hu Htt Hsz Hof Hss Hsd Hct H0 Hb Hraw Hrows H1 Hsum.
   unfold consistent. rewrite Hu, Htt, Hsz, Hof, Hss, Hsd.
-  rewrite (builder_stsc_ok tb sraw0 scalls H0 Hc Hb Hraw Hrows H1 Hsum).
+  rewrite (builder_stsc_ok tb sraw0 sb0 scalls H0 Hb Hraw Hrows H1 Hsum).
   replace (ctts_ok tb) with true; [reflexivity|]. symmetry.
   destruct Hct as [E | [E Es]].
   - unfold ctts_ok. rewrite E. reflexivity.
